@@ -69,22 +69,53 @@ def build_classes(desc):
             elif f == "property":
                 ns[a["name"]] = property(lambda self: 1)
         ns["__annotations__"] = ann
-        cls = type(cd["name"], (), ns)
+        cls = type(cd["name"], (env[cd["base"]],) if cd.get("base") else (), ns)
         kw = {"bootstrap": True}
-        if cd.get("key"):
-            kw["key"] = cd["key"]
+        if cd.get("key") or (cd.get("base") and "key" in cd):
+            kw["key"] = cd["key"]  # a subclass may disable (None) or rename the key of its parent
         if cd.get("overflow"):
             kw["init_overflow_attr"] = cd["overflow"]
         env[cd["name"]] = spec_class(**kw)(cls)
     return env
 
 
+def prepare(desc):
+    """resolve inheritance inside a description (idempotent): inherited attributes in the parent's
+    order, effective key, inherited overflow attribute"""
+    by_name = {}
+    for cd in desc:
+        if cd.get("base"):
+            par = by_name[cd["base"]]
+            cd["_inherited"] = par.get("_inherited", []) + par["attrs"]
+            cd["_effkey"] = cd["key"] if "key" in cd else par.get("_effkey")
+            cd["_effoverflow"] = cd.get("overflow") or par.get("_effoverflow")
+        else:
+            cd["_inherited"] = []
+            cd["_effkey"] = cd.get("key")
+            cd["_effoverflow"] = cd.get("overflow")
+        by_name[cd["name"]] = cd
+    return desc
+
+
+def all_attrs(cd):
+    return cd.get("_inherited", []) + cd["attrs"]
+
+
+def eff_key(cd):
+    return cd["_effkey"] if "_effkey" in cd else cd.get("key")
+
+
+def eff_overflow(cd):
+    return cd["_effoverflow"] if "_effoverflow" in cd else cd.get("overflow")
+
+
 def ncls_of(cd):
     """what with_spec_attrs_for reads of a class, reconstructed from the description alone:
-    (name, init, default code) per attribute in __spec_class__.attrs order, overflow attribute"""
+    (name, init, default code) per attribute in __spec_class__.attrs order (inherited first),
+    overflow attribute"""
     out, seen = [], set()
-    for a in cd["attrs"]:
-        if a["name"].startswith("_") and a["name"] != cd.get("key"):
+    for a in all_attrs(cd):
+        if a["name"].startswith("_") and a["name"] != eff_key(cd):
             continue
         f = a.get("form", "none")
         d = a["default"] if f in ("value", "noinit") else 0
@@ -93,9 +124,10 @@ def ncls_of(cd):
     # private key attributes are appended after the managed ones (helpers=False)
     priv = [x for x in out if x[0].startswith("_")]
     out = [x for x in out if not x[0].startswith("_")]
-    if cd.get("overflow") and cd["overflow"] not in seen:
-        out.append((cd["overflow"], True, 0))
-    return out + priv, cd.get("overflow")
+    ov = eff_overflow(cd)
+    if ov and ov not in seen:
+        out.append((ov, True, 0))
+    return out + priv, ov
 
 
 def c_ncls(n):
@@ -114,9 +146,9 @@ def methods_of(desc, cd):
     by_name = {c["name"]: c for c in desc}
     own = ncls_of(cd)
     out = []
-    key = cd.get("key")
+    key = eff_key(cd)
     if key:
-        ka = [a for a in cd["attrs"] if a["name"] == key]
+        ka = [a for a in all_attrs(cd) if a["name"] == key]
         has_default = bool(ka) and ka[0].get("form", "none") in ("value", "noinit", "factory", "property")
         # Attr.has_default: default or default_factory present; a masking property is a default object too
         out.append(("__init__", f"(MInit (Some ({cs(key)}, {cbool(has_default)})))", own))
@@ -341,16 +373,121 @@ def c_outcome(o):
 
 def make_instance(cls, cd):
     try:
-        return cls(**({cd["key"]: "k"} if cd.get("key") else {}))
+        return cls(**({eff_key(cd): "k"} if eff_key(cd) else {}))
     except BaseException as e:
         if isinstance(e, (KeyboardInterrupt, SystemExit)):
             raise
         return object.__new__(cls)
 
 
+# ------------------------------------------------------------------ effects of accepted calls on the real methods
+def typed_value(target_cd, k, n):
+    """a well-typed value for keyword k of a constructor of target_cd (None: leave this keyword out)"""
+    for a in all_attrs(target_cd):
+        if a["name"] == k:
+            if a.get("form", "none") in ("property", "noinit"):
+                return None
+            return n if a["ty"] == "int" else (f"s{n}" if a["ty"] == "str" else None)
+    return n  # not an attribute: a keyword for the ** catch-all
+
+
+def enc_obs(v):
+    from spec_classes.types import MISSING
+    if v is None or v is MISSING:
+        return None
+    if isinstance(v, bool):
+        return -1
+    if isinstance(v, int):
+        return v
+    if isinstance(v, str) and v[:1] == "s" and v[1:].isdigit():
+        return int(v[1:])
+    return -1
+
+
+def keyword_sets(target_cd, adv_names, catch_all, must):
+    """keyword subsets to try on the real method: every single keyword, pairs, and -- when a
+    ** catch-all is advertised -- keywords it alone covers, alone and mixed with named ones;
+    consecutive sets differ, so state kept between calls (caches) is exercised"""
+    named = [k for k in adv_names if typed_value(target_cd, k, 1) is not None and k not in must]
+    extra = ["zzz", "yyy"] if catch_all else []
+    sets = [[k] for k in named[:6]]
+    sets += [[e] for e in extra]
+    pool = named[:4] + extra
+    sets += [[a, b] for i, a in enumerate(pool) for b in pool[i + 1:]][:8]
+    if not sets or must:
+        sets = [[]] + sets
+    return [must + s_ for s_ in sets]
+
+
+def effects_for(env, by_name, cd, cls, mname, pat, kind, adv):
+    """[(ncls of the object the keywords are for, [(keyword, value, in __dict__, in overflow dict)])]"""
+    virt = [p for p in adv if p[0] != "self"]
+    target_cd, mode = None, None
+    if mname == "__init__":
+        target_cd, mode = cd, "init"
+    else:
+        attr = pat[1] if isinstance(pat, tuple) else mname.split("_", 1)[1] if "_" in mname else None
+        a = next((x for x in cd["attrs"] if x["name"] == attr), None)
+        if a is None:
+            return []
+        base, _, ref = a["ty"].partition(":")
+        if not isinstance(pat, tuple) and base == "nested" and mname.startswith(("with_", "update_")):
+            target_cd, mode = by_name[ref], "attr"
+        elif isinstance(pat, tuple) and pat[0] == "with" and base in ("list_nested", "dict_nested", "klist"):
+            target_cd, mode = by_name[ref], base
+    if target_cd is None:
+        return []
+    tn = ncls_of(target_cd)
+    explicit = {"self", "_new_value", "_inplace", "_if", "_item", "_index", "_insert", "_key", "_value"}
+    adv_kw = [p[0] for p in virt if p[0] not in explicit and p[1] != "VarKw"]
+    if mode == "init" and eff_key(cd) and eff_key(cd) not in adv_kw:
+        adv_kw = [eff_key(cd)] + adv_kw
+    catch_all = any(p[1] == "VarKw" for p in virt)
+    tkey = eff_key(target_cd)
+    must = [tkey] if tkey and not any(x["name"] == tkey and x.get("form", "none") != "none" for x in all_attrs(target_cd)) else []
+    out = []
+    counter = [2000]
+    for ks in keyword_sets(target_cd, adv_kw, catch_all, must):
+        kw = {}
+        for k in ks:
+            counter[0] += 1
+            kw[k] = typed_value(target_cd, k, counter[0])
+        try:
+            if mode == "init":
+                target = cls(**kw)
+            else:
+                recv = make_instance(cls, cd)
+                if mode == "attr":
+                    target = getattr(getattr(recv, mname)(**kw), mname.split("_", 1)[1])
+                elif mode == "dict_nested":
+                    coll = getattr(getattr(recv, mname)("key", **kw), pat[1])
+                    target = coll["key"]
+                else:
+                    coll = getattr(getattr(recv, mname)(**kw), pat[1])
+                    target = list(coll)[-1]
+            d = object.__getattribute__(target, "__dict__")
+            ov = d.get(tn[1]) if tn[1] else None
+            obs = [(k, enc_obs(v), enc_obs(d.get(k)), enc_obs(ov.get(k)) if isinstance(ov, dict) else None) for k, v in kw.items()]
+        except BaseException as e:
+            if isinstance(e, (KeyboardInterrupt, SystemExit)):
+                raise
+            # the real method refused / broke on keywords its signature advertises
+            obs = [(k, enc_obs(v), None, None) for k, v in kw.items()] or [("<call>", 0, None, None)]
+        out.append((tn, obs))
+    return out
+
+
+def c_effect(e):
+    tn, obs = e
+    n = c_ncls(tn)[len("(Some "):-1]
+    return "(%s, %s)" % (n, clist(obs, lambda o: f"({cs(o[0])}, {cz(o[1])}, {copt(o[2], cz)}, {copt(o[3], cz)})"))
+
+
 def cases_for(desc, only=None):
     """one case per generated method of every class of the description"""
+    prepare(desc)
     env = build_classes(desc)
+    by_name = {c["name"]: c for c in desc}
     out = []
     all_attr_names = sorted({a["name"] for c in desc for a in c["attrs"]})
     for cd in desc:
@@ -370,14 +507,15 @@ def cases_for(desc, only=None):
                 extra += [a[0] for a in nested[0] if not a[1]] + ([nested[1]] if nested[1] else [])
             calls = gen_calls(adv, extra)
             obs = run_calls(f, inst, adv, calls)
+            effects = effects_for(env, by_name, cd, cls, mname, pat, kind, adv)
             out.append({"cls": cd["name"], "method": mname, "kind": kind, "nested": nested, "adv": adv,
-                        "real": real, "impl": impl_ps, "obs": obs})
+                        "real": real, "impl": impl_ps, "obs": obs, "effects": effects})
     return out
 
 
 def c_case(c, obs=None):
     return (f"mkmcase {c['kind']} {c_ncls(c['nested'])} {c_sig(c['adv'])} {c_sig(c['real'])} {c_sig(c['impl'])} "
-            f"{clist(c['obs'] if obs is None else obs, c_outcome)}")
+            f"{clist(c['obs'] if obs is None else obs, c_outcome)} {clist(c.get('effects', []), c_effect)}")
 
 
 # ------------------------------------------------------------------ generation
@@ -399,6 +537,16 @@ FIXED = [
       "attrs": [{"name": "x", "ty": "int", "form": "value", "default": 18}, {"name": "c", "ty": "nested:C"},
                 {"name": "kk", "ty": "nested:K"}]}],
 ]
+# a keyed spec class with spec subclasses that keep, disable or rename the key, and classes holding them
+FIXED.append([
+    {"name": "Base", "key": "name", "attrs": [{"name": "name", "ty": "str"}, {"name": "size", "ty": "int", "form": "value", "default": 31}]},
+    {"name": "Unkeyed", "base": "Base", "key": None, "attrs": [{"name": "weight", "ty": "int", "form": "value", "default": 32}]},
+    {"name": "Rekeyed", "base": "Base", "key": "label", "attrs": [{"name": "label", "ty": "str"}]},
+    {"name": "Plain", "base": "Base", "attrs": [{"name": "weight", "ty": "int", "form": "value", "default": 33}]},
+    {"name": "Holder", "attrs": [{"name": "item", "ty": "nested:Unkeyed"}, {"name": "other", "ty": "nested:Rekeyed"},
+                                  {"name": "plain", "ty": "nested:Plain"}, {"name": "many", "ty": "list_nested:Unkeyed"},
+                                  {"name": "byname", "ty": "dict_nested:Rekeyed"}, {"name": "keyed", "ty": "klist:Plain"}]},
+])
 NAMES = ["a", "b", "p", "q", "x", "y", "items", "values", "name", "size", "kwargs", "flags", "opts", "node", "key_", "v"]
 
 
@@ -432,6 +580,23 @@ def random_desc(rng, nclasses):
             dflt[0] += 1
             attrs.append({"name": "_hid", "ty": "int", "form": "value", "default": dflt[0]})
         cd = {"name": cname, "attrs": attrs}
+        parents = [c for c in desc if c.get("key") and not c.get("base") and not c.get("overflow")
+                   and not c["key"].startswith("_")]
+        if parents and rng.random() < 0.35:
+            # a spec subclass that keeps, disables or renames its parent's key
+            par = rng.choice(parents)
+            taken = {a["name"] for a in par["attrs"]}
+            cd["attrs"] = attrs = [a for a in attrs if a["name"] not in taken] or [{"name": "extra_attr", "ty": "int", "form": "value", "default": 19}]
+            cd["base"] = par["name"]
+            mode = rng.choice(["inherit", "none", "own"])
+            own = [a["name"] for a in attrs if a["ty"] in ("str", "int") and a.get("form", "none") in ("none", "value")
+                   and not a["name"].startswith("_") and a["name"] != "kwargs"]
+            if mode == "none" or (mode == "own" and not own):
+                cd["key"] = None
+            elif mode == "own":
+                cd["key"] = rng.choice(own)
+            desc.append(cd)
+            continue
         r = rng.random()
         strs = [a["name"] for a in attrs if a["ty"] in ("str", "int") and a.get("form", "none") in ("none", "value")
                 and not a["name"].startswith("_")]
@@ -466,6 +631,9 @@ def locate(case, code):
     off = 3 if code == 2 else 5
     if where >= off and where - off < len(case["obs"]):
         return where, case["obs"][where - off]
+    j = where - off - len(case["obs"])
+    if code == 2 and 0 <= j < len(case.get("effects", [])):
+        return where, ("E", j, case["effects"][j])
     return where, None
 
 
@@ -475,9 +643,32 @@ WHERE_MODEL = {1: "model cannot build the method", 2: "advertised signature diff
 
 def main(tier, replay=None):
     chk = Check("C17", tier)
+
+    def call_sig(c, call, code, where):
+        detail = {}
+        if call is not None and call[0] == "E":
+            tn, obs_ = call[2]
+            lost = [k for k, v, da, do in obs_ if v not in (da, do)]
+            detail = {"kind": "effect_lost", "keyword": ",".join(lost) or ",".join(k for k, *_ in obs_), "npos": 0}
+        elif call is not None:
+            posv, kwv, tag, x, flag = call
+            adv_names = [p[0] for p in c["adv"]]
+            unadv = [k for k, _ in kwv if k not in adv_names]
+            if tag == "A" and not flag:
+                kind = "impl_rejects"
+            elif tag == "A":
+                kind = "accepted"
+            else:
+                kind = "rejected" + ("" if flag else "_state_changed")
+            detail = {"kind": kind, "keyword": ",".join(unadv), "npos": len(posv)}
+        return {"code": code, "mkind": c["kind"].strip("()").split()[0], **detail,
+                "where": (WHERE_SPEC if code == 2 else WHERE_MODEL).get(where, "call")}
+
     if replay:
         r = json.load(open(replay))
         cases = cases_for(r["desc"], only=(r["cls"], r["method"]))
+        # calls explained by an open known finding are not what a replay is about
+        cases = [dict(c, obs=[o for o in c["obs"] if chk.match_known(call_sig(c, o, 2, 0)) is None]) for c in cases]
         bad, logs = evaluate(cases, tag="r")
         print("replay:", "still failing code=%s" % bad[0][1] if bad else "passes now", logs)
         for c in cases:
@@ -495,22 +686,6 @@ def main(tier, replay=None):
     bad, logs = evaluate(cases)
     reported = set()
     known_calls = 0
-
-    def call_sig(c, call, code, where):
-        detail = {}
-        if call is not None:
-            posv, kwv, tag, x, flag = call
-            adv_names = [p[0] for p in c["adv"]]
-            unadv = [k for k, _ in kwv if k not in adv_names]
-            if tag == "A" and not flag:
-                kind = "impl_rejects"
-            elif tag == "A":
-                kind = "accepted"
-            else:
-                kind = "rejected" + ("" if flag else "_state_changed")
-            detail = {"kind": kind, "keyword": ",".join(unadv), "npos": len(posv)}
-        return {"code": code, "mkind": c["kind"].strip("()").split()[0], **detail,
-                "where": (WHERE_SPEC if code == 2 else WHERE_MODEL).get(where, "call")}
 
     # first pass: take out, in every failing method, the calls a known finding explains, and
     # re-check all those methods in one batch; only what still fails is triaged one by one
@@ -550,7 +725,10 @@ def main(tier, replay=None):
                 reported.add(key)
                 what = (f"{c['cls']}.{c['method']}{'(' + ', '.join(f'{p[0]}' for p in c['adv']) + ')'}: "
                         + ("violates its advertised signature" if code == 2 else "differs from the model")
-                        + f" [{sig['where']}] call={None if call is None else (call[0], call[1], call[2], call[3], call[4])}")
+                        + (f" [an advertised keyword accepted by the real method did not reach the attribute / overflow "
+                           f"dictionary with the value given: (keyword, given, in __dict__, in overflow dict) = {call[2][1]}]"
+                           if call is not None and call[0] == "E" else
+                           f" [{sig['where']}] call={None if call is None else (call[0], call[1], call[2], call[3], call[4])}"))
                 chk.violation(what, {"desc": descs[owner[i]], "cls": c["cls"], "method": c["method"], "code": code,
                                      "advertised": c["adv"], "compiled": c["real"], "call": call,
                                      "replay": "bin/check C17 --replay <this file>"},
